@@ -72,15 +72,17 @@ impl Write for ScriptSink {
 
 // ---- call-indexed fault injection around an in-memory stream / sink ---------------------------
 #[derive(Clone)]
-enum RMode { Soft(u64), Err(usize, u32), Eof(usize) }
-struct FaultSrc { data: Vec<u8>, pos: usize, calls: usize, mode: RMode, rng: Rng }
+enum RMode { Soft(u64), Err(usize, u32), Once(usize, u32), Eof(usize) }
+struct FaultSrc { data: Vec<u8>, pos: usize, calls: usize, mode: RMode, rng: Rng, fired: std::rc::Rc<std::cell::Cell<bool>> }
 impl Read for FaultSrc {
     fn read(&mut self, buf: &mut [u8]) -> io::Result<usize> {
         let call = self.calls;
         self.calls += 1;
         let mut end = self.data.len();
         match self.mode {
-            RMode::Err(j, k) if call >= j => return Err(io::Error::new(kind_of(k), "injected")),
+            RMode::Err(j, k) if call >= j => { self.fired.set(true); return Err(io::Error::new(kind_of(k), "injected")) }
+            // one-shot fault: exactly call j fails, the source works again afterwards
+            RMode::Once(j, k) if call == j => { self.fired.set(true); return Err(io::Error::new(kind_of(k), "injected")) }
             RMode::Eof(k) => end = k.min(end),
             _ => {}
         }
@@ -152,7 +154,7 @@ fn read_fmt<R: Read>(fmt: &str, src: R) -> (Vec<u8>, Option<u32>, bool) {
     let r = std::panic::catch_unwind(std::panic::AssertUnwindSafe(|| -> (Vec<u8>, Option<u32>) {
         if fmt == "lzma1" {
             match LZMAReader::new_mem_limit(src, u32::MAX, None) { Ok(mut r) => slurp(&mut r), Err(e) => (vec![], Some(code_of(&e))) }
-        } else if fmt == "lzma2" {
+        } else if fmt == "lzma2" || fmt == "lzma2f" {
             slurp(&mut LZMA2Reader::new(src, 1 << 16, None))
         } else if fmt == "xz" {
             slurp(&mut XZReader::new(src, true))
@@ -179,6 +181,16 @@ fn write_fmt<W: Write>(fmt: &str, data: &[u8], sink: W) -> (Option<W>, Option<u3
             opt.lzma_options = o.lzma(None);
             let mut w = LZMA2Writer::new(sink, opt);
             w.write_all(data)?;
+            w.finish()
+        } else if fmt == "lzma2f" {
+            // several chunks: a flush every 200 bytes
+            let mut opt = LZMA2Options::default();
+            opt.lzma_options = o.lzma(None);
+            let mut w = LZMA2Writer::new(sink, opt);
+            for c in data.chunks(200) {
+                w.write_all(c)?;
+                w.flush()?;
+            }
             w.finish()
         } else if fmt == "xz" {
             let mut opt = XZOptions::with_preset(0);
@@ -209,7 +221,7 @@ fn write_fmt<W: Write>(fmt: &str, data: &[u8], sink: W) -> (Option<W>, Option<u3
 
 fn parse_rmode(s: &str) -> RMode {
     let v: Vec<&str> = s.split(':').collect();
-    match v[0] { "soft" => RMode::Soft(v[1].parse().unwrap()), "err" => RMode::Err(v[1].parse().unwrap(), v[2].parse().unwrap()), _ => RMode::Eof(v[1].parse().unwrap()) }
+    match v[0] { "soft" => RMode::Soft(v[1].parse().unwrap()), "err" => RMode::Err(v[1].parse().unwrap(), v[2].parse().unwrap()), "once" => RMode::Once(v[1].parse().unwrap(), v[2].parse().unwrap()), _ => RMode::Eof(v[1].parse().unwrap()) }
 }
 fn parse_wmode(s: &str) -> WMode {
     let v: Vec<&str> = s.split(':').collect();
@@ -251,16 +263,19 @@ pub fn exec(a: &[&str]) -> (String, String) {
             let (base, berr, bpanic) = read_fmt(fmt, &stream[..]);
             if berr.is_some() || bpanic { return ("SKIP".into(), "ok".into()); }
             let seed = if let RMode::Soft(s) = mode { s } else { 0 };
-            let (got, err, panic) = read_fmt(fmt, FaultSrc { data: stream.clone(), pos: 0, calls: 0, mode: mode.clone(), rng: Rng::new(seed) });
+            let fired = std::rc::Rc::new(std::cell::Cell::new(false));
+            let (got, err, panic) = read_fmt(fmt, FaultSrc { data: stream.clone(), pos: 0, calls: 0, mode: mode.clone(), rng: Rng::new(seed), fired: fired.clone() });
             let verdict = if panic { "FAIL reader panics under an I/O fault".to_string() } else {
                 match (&mode, err) {
                     (_, Some(99)) => "FAIL endless output / no termination".into(),
                     (RMode::Soft(_), None) if got == base => "ok".into(),
                     (RMode::Soft(_), None) => "FAIL short reads / Interrupted change the decoded bytes".into(),
                     (RMode::Soft(_), Some(k)) => format!("FAIL short reads / Interrupted make the reader fail (kind {k})"),
-                    (RMode::Err(_, _), None) if got == base => "ok".into(),
-                    (RMode::Err(_, _), None) => "FAIL source error swallowed: success with wrong or missing bytes".into(),
-                    (RMode::Err(_, k), Some(e)) => if e == *k && base.starts_with(&got) { "ok".into() } else if e != *k { format!("FAIL source error kind {k} reported as kind {e}") } else { "FAIL bytes before the error are not a prefix of the original".into() },
+                    // the source failed a call the reader actually made: the read has to fail
+                    (RMode::Err(_, _) | RMode::Once(_, _), None) if got == base && !fired.get() => "ok".into(),
+                    (RMode::Err(_, _) | RMode::Once(_, _), None) if got == base => "FAIL source error swallowed: the reader made the failing call and reports success".into(),
+                    (RMode::Err(_, _) | RMode::Once(_, _), None) => "FAIL source error swallowed: success with wrong or missing bytes".into(),
+                    (RMode::Err(_, k) | RMode::Once(_, k), Some(e)) => if e == *k && base.starts_with(&got) { "ok".into() } else if e != *k { format!("FAIL source error kind {k} reported as kind {e}") } else { "FAIL bytes before the error are not a prefix of the original".into() },
                     (RMode::Eof(_), None) if got == base => "ok".into(),
                     (RMode::Eof(_), None) => "FAIL truncated stream reported as success with wrong or missing bytes".into(),
                     (RMode::Eof(_), Some(_)) => if base.starts_with(&got) { "ok".into() } else { "FAIL bytes before the error are not a prefix of the original".into() },
@@ -324,7 +339,7 @@ pub fn gen(rng: &mut Rng, tier: &str, dist: &mut Dist) -> Vec<String> {
         cmds.push(format!("wa {} {}", if sitems.is_empty() { ".".into() } else { sitems.join(",") }, hex(&buf)));
     }
     // (2) readers and writers of every format under faults
-    let fmts = ["lzma1", "lzma2", "xz", "lzip", "delta:1", "delta:7", "x86", "arm", "armthumb", "arm64", "ppc", "sparc", "ia64", "riscv"];
+    let fmts = ["lzma1", "lzma2", "lzma2f", "xz", "lzip", "delta:1", "delta:7", "x86", "arm", "armthumb", "arm64", "ppc", "sparc", "ia64", "riscv"];
     let m = if tier == "thorough" { 120 } else { 14 };
     for round in 0..m {
         for fmt in fmts {
@@ -341,8 +356,14 @@ pub fn gen(rng: &mut Rng, tier: &str, dist: &mut Dist) -> Vec<String> {
             for _ in 0..3 {
                 cmds.push(format!("fault_r {} {} err:{}:{}", fmt, hex(&stream), rng.below(stream.len() as u64 / 2 + 8), *rng.pick(&kinds)));
             }
+            // one-shot faults (the source works again after the failing call); for the multi-chunk
+            // LZMA2 stream at every call index, so that chunk headers and the end marker are hit
+            let calls: Vec<u64> = if fmt == "lzma2f" && stream.len() < 4000 { (0..stream.len() as u64 / 2 + 4).collect() } else { (0..3).map(|_| rng.below(stream.len() as u64 / 2 + 8)).collect() };
+            for j in calls {
+                cmds.push(format!("fault_r {} {} once:{}:{}", fmt, hex(&stream), j, *rng.pick(&kinds)));
+            }
             // raw filters have no framing: a truncated filter stream is a shorter valid stream
-            let framed = matches!(fmt, "lzma1" | "lzma2" | "xz" | "lzip");
+            let framed = matches!(fmt, "lzma1" | "lzma2" | "lzma2f" | "xz" | "lzip");
             if framed && !stream.is_empty() {
                 // truncation points: a few random ones, plus every point for short streams
                 let pts: Vec<usize> = if stream.len() <= 48 { (0..stream.len()).collect() } else { (0..4).map(|_| rng.below(stream.len() as u64) as usize).chain([stream.len() - 1, stream.len() - 2, 1]).collect() };
